@@ -1,8 +1,9 @@
 // C19: history driver for the sequence containers
 //   utl::vector, utl::static_vector, nmtools::small_vector (all-utl configuration and default configuration), utl::array
 // Every step is applied to the utl:: object and to a std::vector based model (with a capacity ceiling for
-// static_vector and per-cell definedness: cells created by a sized constructor / growing resize and never
-// written are unspecified and are never read or compared).
+// static_vector and per-cell definedness: utl::vector value-initialises new cells like std::vector and they are
+// compared with T(); for static_vector / small_vector cells created by a sized constructor / growing resize and
+// never written are unspecified (stale after shrink+grow) and are never read or compared).
 #include "c19_hist.hpp"
 #include "nmtools/utility/small_vector.hpp"
 
